@@ -927,21 +927,20 @@ func c03Reason(err error) string {
 	s = c03ReQuoted.ReplaceAllString(s, "_")
 	s = c03ReDigits.ReplaceAllString(s, "#")
 
-	parts := strings.Split(s, ": ")
-	if len(parts) > 2 {
-		parts = parts[len(parts)-2:]
+	// the innermost wrapped message
+	if i := strings.LastIndex(s, " - "); i >= 0 {
+		s = s[i+3:]
 	}
 
-	s = strings.Join(parts, ": ")
-	if len(s) > 90 {
-		s = s[len(s)-90:]
+	if len(s) > 110 {
+		s = s[:110]
 	}
 
 	return s
 }
 
 type c03Local struct {
-	evals, accepted, modelMismatchStrict, modelMismatchLoose int64
+	evals, honest, accepted, modelMismatchStrict, modelMismatchLoose int64
 	outcomes                                                 map[string]int64
 	acc                                                      map[string]*c03Accepted
 	samples                                                  []string
@@ -1309,7 +1308,15 @@ func (w *c03World) deviations(l *c03Local, t10 int, emask int, thin bool) {
 		}
 	}
 
-	ev := func(c *c03Cand) { w.eval(l, t10, c) }
+	seen := map[string]bool{} // a deviation that coincides with an earlier one of this E is evaluated once
+
+	ev := func(c *c03Cand) {
+		if id := c.id(n); !seen[id] {
+			seen[id] = true
+
+			w.eval(l, t10, c)
+		}
+	}
 
 	if emask != 0 {
 		// an expel voteproof type without expels / a plain voteproof cannot carry expels by type
@@ -1597,7 +1604,7 @@ func (w *c03World) honest(r *vlib.Run, l *c03Local, t10 int) {
 		}
 
 		err = w.validate(vp)
-		l.evals++
+		l.honest++
 
 		switch {
 		case err != nil:
@@ -1788,10 +1795,11 @@ func c03RunConfig(r *vlib.Run, cfg c03Config, workers int, stop *atomic.Bool) {
 	// merge
 	acc := map[string]*c03Accepted{}
 
-	var evals int64
+	var evals, honest int64
 
 	for _, l := range locals {
 		evals += l.evals
+		honest += l.honest
 		r.Add("accepted_candidates", l.accepted)
 		r.Add("accepted_but_reference_rule_rejects", l.modelMismatchStrict)
 		r.Add("rejected_but_reference_rule_accepts", l.modelMismatchLoose)
@@ -1813,9 +1821,10 @@ func c03RunConfig(r *vlib.Run, cfg c03Config, workers int, stop *atomic.Bool) {
 		}
 	}
 
-	r.EvalN(evals)
-	r.TraceN(evals)
-	r.StatesN(evals)
+	r.EvalN(evals + honest)
+	r.TraceN(evals + honest)
+	r.StatesN(evals) // distinct candidates; the honest constructions re-validate members of the grammar
+	r.Add("honest_constructions_validated", honest)
 
 	list := make([]*c03Accepted, 0, len(acc))
 	for _, a := range acc {
